@@ -194,6 +194,31 @@ class XExprEvaluator(ModelVisitor):
         if self.debug:            
             print("    result: is_x=%s val=%d" % (str(self.is_x), int(self.val)))
                     
+    def visit_expr_unary(self, e):
+        e.expr.accept(self)
+        if not self.is_x:
+            # The only unary operator is a bitwise 'not' over the operand's width
+            w = e.expr.width()
+            self.val = ValueScalar((~int(self.val)) & ((1 << w)-1))
+            
+    def visit_expr_partselect(self, e):
+        # Not evaluated here: leave it to the solver
+        self.is_x = True
+        self.val = None
+        
+    def visit_expr_cond(self, e):
+        # Not evaluated here: leave it to the solver
+        self.is_x = True
+        self.val = None
+        
+    def visit_expr_indexed_dynref(self, e):
+        # A dynamic-constraint reference has no constant value
+        self.is_x = True
+        self.val = None
+        
+    def visit_expr_indexed_fieldref(self, e):
+        e.get_target().accept(self)
+        
     def visit_expr_fieldref(self, e : ExprFieldRefModel):
         e.fm.accept(self)
         
